@@ -329,3 +329,17 @@ package labels
 //@   assert at "data[0] = 1": numSBLabels == 1 ==> has(indices, curIndices[0])
 //@   assert at "data[0] = 0": numSBLabels == 1 ==> !has(indices, curIndices[0])
 //@   assert at "bitpos += bits": ((data[outbytepos] & bitMask[outbitpos%8]) != 0) == curForeground
+
+// GetPointLabels (C09: the label-at-a-point view equals the uncompressed array): sub-blocks are numbered
+// x fastest, then y, then z over the block's OWN grid (gx, gy differ for non-cubic blocks), and the voxel
+// inside a sub-block is addressed x fastest, then y, then z with SubBlockSize = 8 - the layout MakeBlock
+// writes. Both are stated in Horner form, so a swapped stride is a failing ring identity.
+//@ func Block.GetPointLabels
+//@   prop C09
+//@   requires b != nil
+//@   safety_off
+//@   calls_havoc
+//@   modifies *
+//@   assert at "if subBlockNum >= maxSubBlocks {": subBlockNum == int((sz*gy+sy)*gx + sx)
+//@   assert at "pti := ptIndex{pos: dvid.Point3d{sbx, sby, sbz}, index: i}": sbx == pt[0] % 8 && sby == pt[1] % 8 && sbz == pt[2] % 8 && sx == pt[0] >> 3 && sy == pt[1] >> 3 && sz == pt[2] >> 3
+//@   assert at "var index uint16": bitposPt == int((pti.pos[2]*8+pti.pos[1])*8+pti.pos[0])*bits + bitpos
